@@ -332,8 +332,9 @@ class FormatMachine(MachineBase):
             if path in self.durable:
                 self.durable[path]["clean"] = False
                 self.durable[path]["expected"] = None
-        elif verdict == INVALID or isinstance(e, (TypeError, ValueError)):
-            # the dump failed on validation: C18 applies
+        elif verdict == INVALID or isinstance(e, (TypeError, ValueError)) or (verdict == UNSPEC and not s.tainted and not isinstance(e, OSError)):
+            # the dump failed on validation: C18 applies (also when an object the model does not call valid is refused with
+            # another exception class - a validator tripping over a value of the wrong type raises AttributeError)
             self.count("C18", ["real-invalid", self.FORMAT, why, before is None])
             CTX.fault("F2.invalid_value_dump")
             if after != before:
@@ -758,6 +759,7 @@ class FormatMachine(MachineBase):
         if text2 != text1 and not self.order_ambiguous(got):
             raise Violation("C05", "C05.second_write_byte_identical", "second-write-differs/%s" % key,
                             {"diff": _text_diff(text1, text2), "source": d.get("source")})
+        self._used_object_differential(path, text1, key)
         # the node now runs on the upgraded state
         self.fs.put(path, text1)
         self.durable[path] = {"expected": got, "bytes": text1.encode("utf-8"), "clean": True, "kw": d.get("kw", {})}
@@ -770,6 +772,41 @@ class FormatMachine(MachineBase):
 
     def after_legacy_durable(self, path, got):
         pass
+
+    def _used_object_differential(self, path, text1, key):
+        """An object that has read ANOTHER document before is given the older document, its twin the same document as the
+        library itself re-wrote it in the current format: whether a second load merges into or replaces what the object
+        held is nobody's promise - but the version of the FILE is not allowed to decide it (same facts either way)."""
+        if self.cfg.get("focus") != "C05" or self.FORMAT not in ("rpms", "modules", "extra_files", "composeinfo"):
+            return
+        prime = self.prime_document()
+        if prime is None:
+            return
+        pfile, cur = path + ".prime", path + ".as-current"
+        self.fs.put(pfile, prime)
+        self.fs.put(cur, text1)
+        res = []
+        for second in (path, cur):
+            o = self.new_obj()
+            try:
+                o.load(pfile)
+                o.load(second)
+                res.append(self.observe(o))
+            except Exception as e:
+                if isinstance(e, HarnessError):
+                    raise
+                res.append("raises")
+        self.fs.remove(pfile)
+        self.fs.remove(cur)
+        self.count("C05", ["used-object-differential", self.FORMAT, res[0] == "raises", res[1] == "raises"])
+        CTX.probe("c05.older_document_read_by_a_used_object")
+        if (res[0] == "raises") != (res[1] == "raises"):
+            raise Violation("C05", "C05.same_facts_whatever_the_file_version", "used-object-load-outcome-differs/%s" % key,
+                            {"older": res[0] == "raises", "current": res[1] == "raises"})
+        if res[0] != "raises":
+            diff = first_diff(res[1], res[0])
+            if diff:
+                raise Violation("C05", "C05.same_facts_whatever_the_file_version", "used-object-load-differs/%s/%s" % (key, diff_key(diff)), {"diff": diff})
 
     def order_ambiguous(self, observed):
         """content whose serialised order the property does not define (outside its quantifier)"""
